@@ -179,7 +179,10 @@ def w_hot_values(c):
     holds (c is the code of the Signed format the values belong to)"""
     if c >= 12:
         w = W_BITS[c]
-        return [fbits(w, x) for x in (1.0, -1.0, 0.5, -0.75, 1e-3)] + [fbits(w, 1.0) - 1, (fbits(w, 1.0) + 1) | (1 << (w - 1))]
+        inf = 0x7F800000 if w == 32 else 0x7FF0000000000000
+        nan = 0x7FC00000 if w == 32 else 0x7FF8000000000000
+        return [fbits(w, x) for x in (1.0, -1.0, 0.5, -0.75, 1e-3)] + [fbits(w, 1.0) - 1, (fbits(w, 1.0) + 1) | (1 << (w - 1)),
+                                                                       inf, inf | (1 << (w - 1)), nan, 1]
     lo, hi = w_range(c)
     b = W_BITS[c]
     e = min(b - 2, w_mant(64 if c in (4, 5) else 32))
@@ -218,6 +221,9 @@ def gen_w_cases(rng, tier):
                         a, b = w_frames(r, c, nch, n, w_a_val), w_frames(r, sg, nch, n, w_val)
                         if (hot_j + rd) % 2 == 0:
                             a[0], b[0] = w_hot_pair(c, nch, hot_j)
+                        if c >= 12 and nm in ("all_0", "all_-0"):     # 0 x inf, 0 x NaN: a muted source is not "nothing"
+                            hv = w_hot_values(c)
+                            a[0], b[0] = [0] * nch, [hv[7 + (hot_j + ch) % 3] for ch in range(nch)]
                         hot_j += 1
                         items.append(w_item(0, 5, c, shape, a, b, amp, 0, "amp:" + nm))
                     for nm, amp in w_gain_patterns(r, c, 1)[:4] + w_gain_patterns(r, c, 1)[-2:-1]:
@@ -247,6 +253,15 @@ def gen_w_cases(rng, tier):
                     nm, amp = r.choice(w_gain_patterns(r, c, nch)[:6])
                     items.append(w_item(0, op, c, shape, w_frames(r, c, nch, la, w_a_val),
                                         w_frames(r, c if op == 3 else sg, nch, lb, w_val), amp, 0, "mismatch:" + nm))
+    # longer slices (a shortcut may sit behind a length threshold): the wide formats and f32, stereo, unity / mixed gains
+    for rep_i in range(reps):
+        for c in W_WIDE + (12,):
+            sg, w = W_SIGNED[c], w_fw(c)
+            for n in (9, 33) if tier == "quick" else (9, 33, 64, 130):
+                r = rng.fork(f"wl{rep_i}_{c}_{n}")
+                near = lambda r_, c_: w_float_val(r_, W_BITS[c_]) if c_ >= 12 else w_half(c_) + r_.range(-9, 9)
+                for nm, amp in (("all_1", [fbits(w, 1.0)] * 2), ("mixed_1_0.5", [fbits(w, 1.0), fbits(w, 0.5)])):
+                    items.append(w_item(0, 5, c, 2, w_frames(r, c, 2, n, near), w_frames(r, sg, 2, n, w_val), amp, 0, f"long{n}:" + nm))
     return items
 
 
@@ -716,7 +731,7 @@ def finish(rep, info, n, nontriv, dist, samples, bad=()):
                 "W: every one of the 14 sample formats x {bare, [S;2], [S;3]} x {add_in_place_with_amp_per_channel with each special gain "
                 "(1, 0, -1, 0.5, -0, 2, 1-ulp, 1+ulp) on ALL channels, special gains mixed per channel, random gains; zip_map_in_place with an "
                 "add_amp(scale_amp(g)) closure for g in 1, 0, -1, 0.5, random; add_in_place (plain, range ends, zero source); write; equilibrium; "
-                "map_in_place with offset_amp(k); two length mismatches under a special gain}; in half of the gain cases the first frame pair is (equilibrium, hot source values: range ends, +-1, +-3, 2^mantissa + 1, ...) so that the scaled source is observed unmasked, samples from the boundary-structured set (MIN, MAX, equilibrium +-1, "
+                "map_in_place with offset_amp(k); two length mismatches under a special gain}; in half of the gain cases the first frame pair is (equilibrium, hot source values: range ends, +-1, +-3, 2^mantissa + 1, ...) so that the scaled source is observed unmasked; the 32/64-bit formats and f32 also with 9 and 33 stereo frames under unity and mixed gains, samples from the boundary-structured set (MIN, MAX, equilibrium +-1, "
                 "+-2^k +-1, values off the float companion's grid, small, uniform), 1..2 frames (1..3 for the gain-free operations); each W case in dev vs the Checked model, in release vs the dev "
                 "observation when the dev build did not panic and vs the Wrapping model when it did, and in relchk vs dev (I24/I48 with a dev panic: vs release); the 32/64-bit formats get every gain pattern twice. "
                 "non-trivial = N >= 2 and L not a multiple of N (the divisibility "
